@@ -752,6 +752,60 @@ def w9(rep):
 WALKERS = ["foamEqual", "foamHash", "foamCopy", "foamFree", "foamToSExpr", "foamFrSExpr", "foamAuditAll", "foamCopyNode"]
 
 
+def w10(rep):
+    """Archive member headers (written by ar(1)) hold blank-padded numbers; a field that the digits fill completely has no blank:
+    the text buffer then ends at the NUL arReadText appends.  arReadNumber must accept both terminators and reject any other."""
+    from .peval import peval
+    f = common.extract("archive.c", trees=["arReadNumber"], cfg=["arReadNumber"])
+    fn = f.func("arReadNumber")
+    cfg = common.CFG(fn)
+    conv = cfg.events(lambda n: n["k"] == "CallExpr" and n.get("callee") in ("strtol", "strtoul"))
+    if len(conv) != 1:
+        raise AnalysisBroken("arReadNumber: expected one strtol call, found %d" % len(conv))
+    cb, cj, call = conv[0]
+    ep = strip(call["c"][2]) if len(call["c"]) > 2 else None
+    if ep is None or ep["k"] != "UnaryOperator" or ep.get("op") != "&" or strip(ep["c"][0])["k"] != "DeclRefExpr":
+        raise AnalysisBroken("arReadNumber: strtol end pointer is not `&local`")
+    endp = strip(ep["c"][0])["n"]
+
+    def lookup_for(v):
+        def lookup(n, env):
+            if n["k"] == "UnaryOperator" and n.get("op") == "*":
+                t = strip(n["c"][0])
+                if t is not None and t["k"] == "DeclRefExpr" and t["n"] == endp:
+                    return v
+            return None
+        return lookup
+
+    def rejects(v):
+        lk = lookup_for(v)
+
+        def edge_ok(b, s_):
+            ce = cfg.cond_edges(b)
+            if ce is None:
+                return True
+            val = peval(ce[0], {}, lk)
+            if val is None:
+                return True
+            return s_ == (ce[1] if val else ce[2])
+        return cfg.path_avoiding(cb, lambda n: n["k"] == "CallExpr" and n.get("callee") == "comsgError", lambda n: False,
+                                 src_idx=cj, edge_ok=edge_ok)
+    where = "archive.c:%d (arReadNumber)" % fn["l"]
+    for label, v, want in (("nul", 0, False), ("blank", 32, False), ("letter", ord("x"), True), ("slash", ord("/"), True)):
+        got = rejects(v) is not None
+        key = "ar-number:terminator-%s" % label
+        if got == want:
+            rep.ok("W10", key)
+        elif want:
+            rep.violation("W10", key, where, "a header number followed by %r is accepted: a damaged member header is taken as a size" % chr(v))
+        else:
+            rep.violation("W10", key, where,
+                          "a header number whose conversion stops at %s is rejected as 'Bad number in archive': %s" %
+                          ("the terminating NUL" if v == 0 else "a blank",
+                           "a field filled completely by its digits (six-digit uid/gid, ten-digit size) has no padding blank, "
+                           "so a library that ar(1) lists correctly cannot be read" if v == 0 else "every padded field ends in a blank"))
+
+
 def w5(rep, f_foam, alphabet):
     n = 0
     for name, fn in sorted(f_foam.funcs.items()):
@@ -1136,6 +1190,7 @@ def run(tier, only=None):
     w7(rep, f_foam)
     w8(rep, f_foam)
     w9(rep)
+    w10(rep)
     f_sefo = common.extract("sefo.c", all_trees=True)
     w6(rep, f_sefo, widths)
     rep.assumptions += ["W7: for Lex/RElt/RRElt/EElt/IRElt/TRElt nodes the letter i of argf marks exactly the fields written with the "
